@@ -70,4 +70,77 @@ theorem issuerLoop_ok (E : PgpEnv K) (ring : KeyRing K) (data sig : Bytes) (ids 
       · obtain ⟨k, hm, hid, hc⟩ := subkeyLoop_found E data sig id ring.subkeys failed log hf
         exact ⟨k, .inr ⟨hm, by simp [hid]⟩, hc⟩
 
+/-! ### congruence: the loops look at the environment only through `kid`, `early · sig`, `check · data sig` -/
+
+/-- two environments (each with its own signature argument) that agree on the key ids and, for THESE signatures and
+this data, on the early and the real checks -/
+structure AgreeAt (E1 E2 : PgpEnv K) (data sig1 sig2 : Bytes) : Prop where
+  kid : ∀ k, E1.kid k = E2.kid k
+  early : ∀ k, E1.early k sig1 = E2.early k sig2
+  check : ∀ k, E1.check k data sig1 = E2.check k data sig2
+
+theorem attempt_congr {E1 E2 : PgpEnv K} {data sig1 sig2 : Bytes} (h : AgreeAt E1 E2 data sig1 sig2) (k : K) :
+    attempt E1 k data sig1 = attempt E2 k data sig2 := by
+  unfold attempt; rw [h.early k, h.check k]
+
+theorem subkeyLoop_congr {E1 E2 : PgpEnv K} {data sig1 sig2 : Bytes} (h : AgreeAt E1 E2 data sig1 sig2) (id : Nat)
+    (ks : List K) : ∀ (failed : Bool) (log : List (Attempt K)),
+      subkeyLoop E1 data sig1 id ks failed log = subkeyLoop E2 data sig2 id ks failed log := by
+  induction ks with
+  | nil => intro failed log; rfl
+  | cons k ks ih =>
+    intro failed log
+    simp only [subkeyLoop, h.kid k, attempt_congr h k, ih]
+
+theorem issuerLoop_congr {E1 E2 : PgpEnv K} {data sig1 sig2 : Bytes} (h : AgreeAt E1 E2 data sig1 sig2)
+    (ring : KeyRing K) (ids : List Nat) : ∀ (failed : Bool) (log : List (Attempt K)),
+      issuerLoop E1 ring data sig1 ids failed log = issuerLoop E2 ring data sig2 ids failed log := by
+  induction ids with
+  | nil => intro failed log; rfl
+  | cons id ids ih =>
+    intro failed log
+    simp only [issuerLoop, h.kid ring.primary, attempt_congr h ring.primary, subkeyLoop_congr h, ih]
+
+theorem pgpVerifierVerify_congr {E1 E2 : PgpEnv K} {data sig1 sig2 : Bytes} (h : AgreeAt E1 E2 data sig1 sig2)
+    (hi : E1.issuers sig1 = E2.issuers sig2) (ring : KeyRing K) :
+    pgpVerifierVerify E1 ring data sig1 = pgpVerifierVerify E2 ring data sig2 := by
+  unfold pgpVerifierVerify
+  rw [hi]
+  cases E2.issuers sig2 with
+  | none => rfl
+  | some ids =>
+    cases ids with
+    | nil => simp only [attempt_congr h]
+    | cons id ids => simp only [issuerLoop_congr h]
+
+/-- **the two readings of `Verifier::verify` are the same function**: parsing once and working on the parsed signature
+(`pgpVerifierVerifyP`) = the opaque-environment model (`pgpVerifierVerify`) instantiated with
+`issuers := fun b => (parseSignature P b).map issuers` (`PgpPkt.toEnv`) -/
+theorem pgpVerifierVerifyP_eq_toEnv {σ : Type} (E : PgpPkt K σ) (ring : KeyRing K) (data blob : Bytes) :
+    pgpVerifierVerifyP E ring data blob = pgpVerifierVerify E.toEnv ring data blob := by
+  unfold pgpVerifierVerifyP
+  cases hp : Pgp.parseSignature E.parsePkt blob with
+  | none =>
+    have : E.toEnv.issuers blob = none := by simp [PgpPkt.toEnv, hp]
+    simp only [pgpVerifierVerify, this]
+  | some s =>
+    show pgpVerifierVerify (E.envAt s) ring data blob = pgpVerifierVerify E.toEnv ring data blob
+    refine pgpVerifierVerify_congr (E1 := E.envAt s) (E2 := E.toEnv) ⟨fun _ => rfl, fun k => ?_, fun k => ?_⟩ ?_ ring
+    · simp [PgpPkt.toEnv, PgpPkt.envAt, hp]
+    · simp [PgpPkt.toEnv, PgpPkt.envAt, hp]
+    · simp [PgpPkt.toEnv, PgpPkt.envAt, hp]
+
+/-- after parsing, the blob is never looked at again: two blobs with the same first signature packet get the same
+verdict and the same attempts -/
+theorem pgpVerifierVerifyP_same_parse {σ : Type} (E : PgpPkt K σ) (ring : KeyRing K) (data blob blob' : Bytes)
+    (h : Pgp.parseSignature E.parsePkt blob = Pgp.parseSignature E.parsePkt blob') :
+    pgpVerifierVerifyP E ring data blob = pgpVerifierVerifyP E ring data blob' := by
+  unfold pgpVerifierVerifyP
+  rw [h]
+  cases Pgp.parseSignature E.parsePkt blob' with
+  | none => rfl
+  | some s =>
+    show pgpVerifierVerify (E.envAt s) ring data blob = pgpVerifierVerify (E.envAt s) ring data blob'
+    exact pgpVerifierVerify_congr (E1 := E.envAt s) (E2 := E.envAt s) (data := data) (sig1 := blob) (sig2 := blob') ⟨fun _ => rfl, fun _ => rfl, fun _ => rfl⟩ rfl ring
+
 end RpmVerif.Verify
